@@ -233,6 +233,17 @@ pub fn generate(seed: u64, k_seeds: usize) -> Sc {
             }
         }
     }
+    // Exchange codes that are numbers, next to one that only starts with digits: numeric order,
+    // text order and "natural" order all disagree on these.
+    if n_sec >= 2 && r.chance(1, 10) {
+        let nums = ["700", "1211", "1COV", "9988", "2B", "05"];
+        let k = secs.len().min(3 + r.below(2) as usize).min(nums.len());
+        let mut pool: Vec<&str> = nums.to_vec();
+        r.shuffle(&mut pool);
+        for i in 0..k {
+            secs[i] = pool[i];
+        }
+    }
     // Security names are free text: some contain characters that are awkward in a file name
     // (--csv-output-dir names one file per security after it).
     if r.chance(1, 6) {
